@@ -4,6 +4,8 @@ import json, os, re, shutil, subprocess, sys
 
 RES = sys.argv[1] if len(sys.argv) > 1 else "/tmp/seedfull"
 VER = sys.argv[2] if len(sys.argv) > 2 else "/tmp/seedverify2.log"
+SRC = sys.argv[3] if len(sys.argv) > 3 else "seed"      # directory prefix under /tmp
+TAG = sys.argv[4] if len(sys.argv) > 4 else ""          # id infix, e.g. r2
 head = subprocess.run(["git", "-C", "/repo", "rev-parse", "--short", "HEAD"], capture_output=True, text=True).stdout.strip()
 ver = {}
 for l in open(VER):
@@ -12,9 +14,9 @@ for l in open(VER):
         ver[m.group(1)] = (int(m.group(2)), int(m.group(3)), m.group(4).strip())
 out = []
 for d in sorted(os.listdir("/tmp")):
-    if not re.match(r"seed_C\d+$", d):
+    if not re.match(SRC + r"_C\d+$", d):
         continue
-    prop = d[5:]
+    prop = d[len(SRC) + 1:]
     for m in sorted(os.listdir(f"/tmp/{d}")):
         if not re.match(r"m\d$", m):
             continue
@@ -36,7 +38,7 @@ for d in sorted(os.listdir("/tmp")):
                     keys.setdefault(cur, [])
                 elif l.startswith("     ") and cur:
                     keys[cur].append(l.strip())
-        sid = f"{prop}-{m}"
+        sid = f"{prop}-{TAG}{m}"
         dst = f"/verif/seeded/{sid}"
         os.makedirs(dst, exist_ok=True)
         for f in ("patch.diff", "demo.py", "notes.md"):
